@@ -3,7 +3,9 @@
  * serial thread per round; immediately reusable.
  * args: seed= progs= nw= n=<participants or 0>
  */
+#ifndef _GNU_SOURCE
 #define _GNU_SOURCE
+#endif
 #include "hkm.h"
 
 #define MAXR 4096
